@@ -4,6 +4,8 @@ use std::path::Path;
 pub mod c01;
 pub mod c02;
 pub mod c03;
+pub mod c04;
+pub mod c06;
 pub mod c08;
 pub mod c09;
 pub mod c10;
@@ -27,6 +29,8 @@ pub fn run(id: &str, tier: Tier, seed: u64) -> i32 {
         "C01" => c01::C01,
         "C02" => c02::C02,
         "C03" => c03::C03,
+        "C04" => c04::C04,
+        "C06" => c06::C06,
         "C08" => c08::C08,
         "C09" => c09::C09,
         "C10" => c10::C10,
@@ -41,6 +45,8 @@ pub fn replay(id: &str, path: &Path) -> i32 {
         "C01" => c01::C01,
         "C02" => c02::C02,
         "C03" => c03::C03,
+        "C04" => c04::C04,
+        "C06" => c06::C06,
         "C08" => c08::C08,
         "C09" => c09::C09,
         "C10" => c10::C10,
